@@ -294,6 +294,62 @@ func asyncScenarios(maxBound func(n int) int) []scenario {
 	return out
 }
 
+// ---------- callbacks that wait for one another ----------
+
+// rendezvousScenarios: every ForEachAsync callback announces itself and then waits until ALL callbacks of the
+// call have started. With one goroutine per element every start order leads to completion; an implementation
+// that starts a callback only after an earlier one has RETURNED (a throttle, a sequential fallback) never
+// calls the later ones: "exactly once per element" and "returns after all calls have returned" both fail.
+// (MapAsync is not driven this way: the unchanged tree runs its callbacks under one mutex, and the statement
+// speaks of pure functions there.)
+func rendezvousScenarios(bound func(n int) int) []scenario {
+	var out []scenario
+	for _, kind := range []string{"list", "object"} {
+		for n := 2; n <= 3; n++ {
+			kind, n := kind, n
+			name := fmt.Sprintf("%s(n=%d).ForEachAsync with callbacks that wait for each other", kind, n)
+			out = append(out, scenario{Name: name, Family: "async", MaxBound: bound(n), Mk: func() *instance {
+				vals := []interface{}{1, "a", 2.5}[:n]
+				keys := []string{"a", "b", "c"}[:n]
+				l := at.NewList(vals...)
+				o := at.NewObject()
+				want := map[string]bool{}
+				for i, k := range keys {
+					o.Set(k, vals[i])
+					if kind == "list" {
+						want[fmt.Sprint(i)+"="+ident(vals[i])] = true
+					} else {
+						want[k+"="+ident(vals[i])] = true
+					}
+				}
+				st := &asyncState{starts: map[string]int{}, ends: map[string]int{}}
+				var all rtWG
+				all.Add(n)
+				cb := func(key string, v interface{}) {
+					st.add("s", key, v)
+					all.Done()
+					all.Wait() // until every callback of this call has started
+					st.add("e", key, v)
+				}
+				return &instance{Body: func() {
+					same := false
+					if kind == "list" {
+						same = l.ForEachAsync(func(i int, v interface{}) { cb(fmt.Sprint(i), v) }) == l
+					} else {
+						same = o.ForEachAsync(func(k string, v interface{}) { cb(k, v) }) == o
+					}
+					e := st.endCount()
+					st.mu.Lock()
+					st.endsAtReturn, st.returned, st.retSame = e, true, same
+					st.mu.Unlock()
+				}, Oracle: asyncOracle(st, name, want, n, false),
+					Outcome: func() string { st.mu.Lock(); defer st.mu.Unlock(); return strings.Join(stripPtr(st.log), " ") }}
+			}})
+		}
+	}
+	return out
+}
+
 // ---------- nested async calls ----------
 
 // nestedScenarios: the callback of an async call itself calls an async operation - on the element it was
